@@ -82,6 +82,7 @@ def check_targets(step):
         tbl, df = o.table, o.df
         names, rows = o.names, o.rows
         ex = step.explorer
+        ordered = ex.model.seq_comparable(step.mres, b)
 
         def bad(inv, sym, detail=None):
             vs.append(X.violation(step, inv, b, sym, detail or {}))
@@ -91,13 +92,11 @@ def check_targets(step):
             # DictOfLists / ListOfDicts
             try:
                 dol = tbl >> pdt.export(pdt.DictOfLists)
-                if list(dol.keys()) != names or [tuple(C.norm_cell(dol[n][i]) for n in names) for i in range(len(rows))] != rows \
-                        or any(len(v) != len(rows) for v in dol.values()):
-                    if not _rows_equal_loose(names, rows, dol):
-                        bad("target:DictOfLists", "differs", {"polars": C.rows_json(rows), "got": str(dol)[:300]})
+                if not _rows_equal_loose(names, rows, dol, ordered):
+                    bad("target:DictOfLists", "differs", {"polars": C.rows_json(rows), "got": str(dol)[:300]})
                 lod = tbl >> pdt.export(pdt.ListOfDicts)
                 if len(lod) != len(rows) or any(list(d.keys()) != names for d in lod) or \
-                        not C.rows_eq(rows, [tuple(C.norm_cell(d[n]) for n in names) for d in lod], ordered=True):
+                        not C.rows_eq(rows, [tuple(C.norm_cell(d[n]) for n in names) for d in lod], ordered=ordered):
                     bad("target:ListOfDicts", "differs", {"polars": C.rows_json(rows), "got": str(lod)[:300]})
                 ex.stats["target_comparisons"] += 2
             except Exception as e:  # noqa: BLE001
@@ -136,12 +135,11 @@ def check_targets(step):
                     bad("target:Polars(lazy)", "not-lazy", {"type": type(lz).__name__})
                 else:
                     got = lz.collect()
-                    if dict(got.schema) != dict(df.schema) or C.diff_frames(names, rows, list(got.columns), C.frame_rows(got), ordered=True):
-                        if C.diff_frames(names, rows, list(got.columns), C.frame_rows(got), ordered=ex.model.seq_comparable(step.mres, b)) or dict(got.schema) != dict(df.schema):
-                            bad("target:Polars(lazy)", "differs", {"eager": str(df.schema), "lazy": str(got.schema)})
+                    if dict(got.schema) != dict(df.schema) or C.diff_frames(names, rows, list(got.columns), C.frame_rows(got), ordered=ordered):
+                        bad("target:Polars(lazy)", "differs", {"eager": str(df.schema), "lazy": str(got.schema)})
                 pdf = tbl >> pdt.export(pdt.Pandas())
                 prow = pandas_rows(pdf)
-                if list(pdf.columns) != names or C.diff_frames(names, rows, list(pdf.columns), prow, ordered=ex.model.seq_comparable(step.mres, b)):
+                if list(pdf.columns) != names or C.diff_frames(names, rows, list(pdf.columns), prow, ordered=ordered):
                     bad("target:Pandas", "differs", {"polars": C.rows_json(rows)[:5], "pandas": str(prow)[:300], "columns": list(map(str, pdf.columns))})
                 again = pdt.Table(df) >> pdt.export(pdt.Polars())
                 if dict(again.schema) != dict(df.schema) or not again.equals(df):
@@ -152,12 +150,11 @@ def check_targets(step):
     return vs
 
 
-def _rows_equal_loose(names, rows, dol):
-    try:
-        got = [tuple(C.norm_cell(dol[n][i]) for n in names) for i in range(len(rows))]
-    except Exception:  # noqa: BLE001
+def _rows_equal_loose(names, rows, dol, ordered):
+    if list(dol.keys()) != names or any(len(v) != len(rows) for v in dol.values()):
         return False
-    return list(dol.keys()) == names and C.rows_eq(rows, got, ordered=True)
+    got = [tuple(C.norm_cell(dol[n][i]) for n in names) for i in range(len(rows))]
+    return C.rows_eq(rows, got, ordered=ordered)
 
 
 # ---------------------------------------------------------------------------------------
